@@ -74,7 +74,7 @@ pub fn analyse_variant_groups<IntT: for<'a> UInt<'a>>(
             })
         })
         .collect();
-    sorted_keys.sort_by(|a, b| b.1.partial_cmp(&a.1).unwrap()); // Sort by ratio, descending
+    sorted_keys.sort_by(|a, b| b.1.partial_cmp(&a.1).unwrap().then_with(|| a.0.cmp(b.0))); // Sort by ratio, descending; key as tie breaker for a stable order
 
     log::info!("Processing SNPs");
 
